@@ -259,8 +259,22 @@ def run_case(case, ctx):
         movev = rng.choice([0.05, 0.1, 0.3], n).astype(float)
         move = movev.copy()
     x0 = np.clip(P["x0"], lo, hi)
+    # a start that happens to be stored with an integer type (Signal('x', 1), np.ones(n, dtype=int)) is a perfectly admissible start
+    int_start, k = [], 0
+    for sz in sizes:
+        a, b = np.ceil(lo[k:k + sz]), np.floor(hi[k:k + sz])
+        ok = bool(np.all(a <= b)) and rng.random() < 0.2
+        if ok:
+            x0[k:k + sz] = np.clip(np.round(x0[k:k + sz]), a, b)
+            ctx.count("integer_typed_starts")
+        int_start.append(ok)
+        k += sz
     sigs, k = [], 0
-    for sz, sc in zip(sizes, scalar):
+    for (sz, sc), isint in zip(zip(sizes, scalar), int_start):
+        if isint:
+            sigs.append(pym.Signal(f"v{len(sigs)}", int(x0[k]) if sc else x0[k:k + sz].astype(int)))
+            k += sz
+            continue
         if not sc and rng.random() < 0.3:     # a variable signal with a pre-allocated sensitivity (reset() zeroes it in place)
             sigs.append(pym.Signal(f"v{len(sigs)}", x0[k:k + sz].copy(), sensitivity=np.zeros(sz)))
             ctx.count("preallocated_variable_signals")
